@@ -130,4 +130,17 @@ CHECKS = {
             {"harness": "c05_teardown", "mode": "udp", "flavour": "tsan", "runs": {"quick": 1500, "thorough": 150000}, "wall": {"quick": 15, "thorough": 600}, "seed_off": 4},
         ],
     },
+    "C06": {
+        "level": "exploration",
+        "rule": ("each run = a UDP transport with 1-2 listeners, 1-6 raw peers at distinct addresses sending keyed datagrams of 15..65507 bytes with drawn gaps, 1-4 actor threads "
+                 "issuing connect, connectViaListener (to peers with or without a session), send (8..65507 bytes), bursts, close, sleeps; idle expiry in a quarter of the runs; "
+                 "network exact or lossy (drop/dup/reorder); egress budget of 2 datagrams in a third of the runs so that sendto() returns EAGAIN and the engine must queue; "
+                 "kernel-side record of every datagram; non-trivial = at least one context switch; distinct = distinct (interleaving hash, abstract state hash)"),
+        "real": ["iora::network::Transport + UdpEngine", "EventBatchProcessor"],
+        "stub": COMMON_STUB + ["kernel UDP sockets, epoll, eventfd, timerfd (simrt/net.cpp) incl. loss, duplication, reordering, EAGAIN", "remote peers (scripted)"],
+        "assumptions": ["default ioReadChunk (64 KiB) so that no datagram exceeds the receive buffer", "peer datagrams carry a 15-byte identifying header"],
+        "jobs": [
+            {"harness": "c06_udp", "flavour": "asan", "runs": {"quick": 12000, "thorough": 1200000}, "wall": {"quick": 45, "thorough": 1800}},
+        ],
+    },
 }
